@@ -18,7 +18,7 @@ import (
 )
 
 // nodeKinds of the C03 layout generator (the assignment the property quantifies over).
-var c03Kinds = []string{"none", "new-available", "new-unavailable", "old-available", "old-available", "old-unavailable", "old-unavailable", "old-terminating", "old-terminating-unready", "new-terminating-unready", "old-stuck-unscheduled", "old-terminating-past-grace", "adopted-available", "adopted-unavailable"}
+var c03Kinds = []string{"none", "new-available", "new-unavailable", "old-available", "old-available", "old-unavailable", "old-unavailable", "old-terminating", "old-terminating-unready", "new-terminating-unready", "old-stuck-unscheduled", "old-terminating-past-grace", "adopted-available", "adopted-unavailable", "old-failed", "old-failed-x2", "new-failed-x2"}
 
 func forksN() int {
 	if thorough() {
@@ -30,7 +30,7 @@ func forksN() int {
 // TestC03Budget: one sync of the active replica set over a generated layout,
 // executed on several forks of the store (Go map order), judged by the budget monitor.
 func TestC03Budget(t *testing.T) {
-	rec := evid.New("TestC03Budget", "C03", "layout = 1-12 targeted nodes each in {no pod, up-to-date available/unavailable, outdated available/unavailable/terminating (Ready or not, inside the grace period), up-to-date terminating, stuck unscheduled >10min, terminating past grace, adopted old-DaemonSet pod available/unavailable} x maxUnavailable x maxPodSchedulerFailure (int or percent), one active sync on several store forks; non-trivial = at least one outdated-available and one outdated-unavailable pod and fewer deletions allowed than candidates; distinct by layout+strategy rendering")
+	rec := evid.New("TestC03Budget", "C03", "layout = 1-12 targeted nodes each in {no pod, up-to-date available/unavailable, outdated available/unavailable/terminating (Ready or not, inside the grace period), up-to-date terminating, stuck unscheduled >10min, terminating past grace, adopted old-DaemonSet pod available/unavailable, one or two pods in phase Failed (the second is kept by the failed-pod back-off)} x maxUnavailable x maxPodSchedulerFailure (int or percent), one active sync on several store forks; non-trivial = at least one outdated-available and one outdated-unavailable pod and fewer deletions allowed than candidates; distinct by layout+strategy rendering")
 	t.Cleanup(func() {
 		if !t.Failed() {
 			rec.Done()
@@ -86,6 +86,17 @@ func TestC03Budget(t *testing.T) {
 				p.addPod(node, 'A', PSStuckUnscheduled, 15*time.Minute)
 			case "old-terminating-past-grace":
 				p.addPod(node, 'A', PSTerminatingPastGrace, 15*time.Minute)
+			case "old-failed":
+				p.addPod(node, 'A', PSFailed, 15*time.Minute)
+			case "old-failed-x2":
+				// two failed (evicted) pods piled up on one node: the clean-up takes one, the failed-pod back-off
+				// keeps the other for now, so the rolling update sees an outdated pod in phase Failed
+				p.addPod(node, 'A', PSFailed, 15*time.Minute)
+				p.addPod(node, 'A', PSFailed, 14*time.Minute)
+				oldUnavail++
+			case "new-failed-x2":
+				p.addPod(node, 'B', PSFailed, 2*time.Minute)
+				p.addPod(node, 'B', PSFailed, time.Minute)
 			case "adopted-available":
 				p.addPod(node, 0, PSAvailable, 15*time.Minute)
 				oldAvail++
